@@ -14,7 +14,7 @@ sys.path[:0] = [HERE, os.path.join(ROOT, "contracts")]
 
 import jast, units, replay as replay_mod   # noqa: E402
 
-MODULES = ["bigint", "fp", "fpmul", "fpexp", "fpinv", "frsqrt", "fpmulw", "canon", "fpio", "wnaf", "scalarmul", "decomp", "tower", "curve", "pairing_c", "pairing_ref", "gt", "enc", "towerio", "hashing",
+MODULES = ["bigint", "fp", "fpmul", "fpexp", "fpinv", "frsqrt", "fpmulw", "canon", "fpio", "wnaf", "scalarmul", "decomp", "tower", "curve", "pairing_c", "pairs", "pairing_ref", "gt", "enc", "towerio", "hashing",
            "wkd", "slots", "marsh", "marshall", "lq", "capi", "asm", "asmw", "archfw", "armw", "thumbw", "cfgsuite", "statics"]
 LEVEL = {}
 
